@@ -592,7 +592,37 @@ class Env:
 STRINGS = ["", "a", "main", "x y", "éè", "q\"uote", "back\\slash", "nl\nline", "tab\t", " ", "emoji\U0001F600", "null", "0", "a.b", "{}", "\x00ctl"]
 FLOATS = [0.5, 1.0, -2.25, 1e-07, 1e+16, 3.141592653589793, 1.7976931348623157e308, 5e-324, -0.0, 123456789.125]
 IDENT_PARTS = ["a", "t", "std", "this", "my table", "x.y", "é", "", "select"]
-VERSION_REQS = ["^0.13", ">=0.13.0, <0.14.0", "=1.2.3", "*", "~1.2", ">1.0.0-alpha.1"]
+# Display forms of semver requirements (pre-release / build metadata are outside Model/VersionReq.v)
+VERSION_REQS = ["^0.13", ">=0.13.0, <0.14.0", "=1.2.3", "*", "~1.2", ">1.0.0", "1.*", "1.2.*", "<=2", "^0, <18446744073709551615.0.1"]
+
+
+def random_version_text(rng):
+    """a text in the neighbourhood of semver's requirement grammar (no `-` / `+`: pre-release and build are not modelled)"""
+    r = rng.random()
+    if r < 0.2:
+        return rng.choice(VERSION_FIXED)
+    if r < 0.65:
+        # comparators as a person writes them: optional operator, spaces, partial versions, wildcards
+        num = lambda: rng.choice(["0", "1", "2", "13", "10", "007", "18446744073709551615", "18446744073709551616"] + ["0", "1", "2", "13"] * 3)
+        cs = []
+        for _ in range(rng.choice([1, 1, 1, 2, 2, 3])):
+            c = rng.choice(["", "", "=", ">", ">=", "<", "<=", "~", "^"]) + rng.choice(["", "", " ", "  "]) + num()
+            k = rng.random()
+            if k < 0.7:
+                c += "." + rng.choice([num(), num(), "*", "x", "X"])
+                if rng.random() < 0.6:
+                    c += "." + rng.choice([num(), num(), "*", "x"])
+            cs.append(c + rng.choice(["", "", " "]))
+        return rng.choice(["", "", " "]) + rng.choice([",", ", ", " ,", " , ", ","]).join(cs)
+    alphabet = ["0", "1", "2", "9", "10", "13", ".", ".", ",", ", ", " ", "*", "x", ">", "<", "=", ">=", "<=", "~", "^", "00", "X"]
+    return "".join(rng.choice(alphabet) for _ in range(rng.choice([1, 2, 3, 3, 4, 5, 6, 8])))
+
+
+VERSION_FIXED = ["*", " * ", "x", "X", "*,1", "* 1", "", " ", "1", "1.2", "1.2.3", "01", "0", "00", "0.0.0", "1.02", ">=1.0, <2", ">= 1.0 ,<2", ">=1.0,<2 ",
+                 "=1.2.3", "~1", "^0.13", "0.13", "1.*", "1.x", "1.X.3", "1.*.*", "1.2.*", ">=1.*", ">=1.2.*", "1.*.2", "~1.x", "1..2", "1.", ".1", "1.2.3.4",
+                 "1,", ",1", "1,,2", "1 2", "> =1", ">==1", "=>1", "<1, >2, =3", "18446744073709551615", "18446744073709551616", "1.18446744073709551616",
+                 "^1.2.3", "1.2.3 ", "1.2 .3", "1. 2", "^ 1", "^  1.2", "v1", "1.2.3,", "1.2.3 ,  4", ", ".join(["1"] * 32), ", ".join(["1"] * 33), "1.*, 2",
+                 "x.1", "*.1", "1.2.x, <3", "<=2.0.0", "<= 2", "~", "^", ">", "1.2.3.", "1.a", "a"]
 
 
 # ---------------------------------------------------------------- trees as Coq terms / comparison
